@@ -755,7 +755,7 @@ pub fn chains(a: &Args, rep: &mut Report) {
 // zero-sized elements: exhaustive enumeration of short histories
 // ------------------------------------------------------------------------------------------
 
-const ZOPS: usize = 20;
+const ZOPS: usize = 21;
 
 fn zst_apply(map: &mut griddle::HashMap<(), (), Bh>, set: &mut griddle::HashSet<(), Bh>, present: &mut (bool, bool), op: usize) -> Result<(), String> {
     let chk = |c: bool, what: &str| if c { Ok(()) } else { Err(format!("{what} disagrees with the model")) };
@@ -831,6 +831,15 @@ fn zst_apply(map: &mut griddle::HashMap<(), (), Bh>, set: &mut griddle::HashSet<
             chk(r.is_ok(), "set try_reserve(5000)")?;
             chk(map.capacity() >= map.len() + 5000 && set.capacity() >= set.len() + 5000, "capacity after try_reserve(5000)")?;
         }
+        20 => {
+            // with_capacity(n) gives capacity() >= n for zero-sized elements too
+            *map = griddle::HashMap::with_capacity_and_hasher(10, Bh::default());
+            *set = griddle::HashSet::with_capacity_and_hasher(10, Bh::default());
+            *present = (false, false);
+            if map.capacity() < 10 || set.capacity() < 10 {
+                return Err(format!("C10: with_capacity(10) gave capacity {} (map) / {} (set)", map.capacity(), set.capacity()));
+            }
+        }
         19 => {
             // requests that overflow: Err from the fallible call, the documented panic from
             // the infallible one, contents untouched
@@ -886,7 +895,7 @@ pub fn zst(a: &Args, rep: &mut Report) {
     let names = [
         "map.insert", "map.remove", "map.get", "map.entry.or_insert", "map.reserve(10)", "map.reserve(1000)", "map.shrink_to_fit", "map.clear", "map.retain(false)", "map.drain", "map.clone",
         "set.insert", "set.remove", "set.reserve(10)", "set.take", "set.retain(false)", "map.try_reserve(37)+set.try_reserve(37)", "map.entry.replace_entry_with(None)/insert",
-        "map.try_reserve(5000)+set.try_reserve(5000)", "try_reserve(overflowing) is Err, reserve(usize::MAX) panics",
+        "map.try_reserve(5000)+set.try_reserve(5000)", "try_reserve(overflowing) is Err, reserve(usize::MAX) panics", "with_capacity(10)",
     ];
     // C17: one transcript line per call (or one digest line per history), compared between builds
     let mut tfile = if a.has("transcript") { Some(std::fs::File::create(a.str("transcript", "t.txt")).expect("create transcript")) } else { None };
